@@ -241,12 +241,26 @@ def rule_capture_method_callers(ctx, rid):
                 continue
             n += 1
             name = targets[next(iter(hit))]
-            ok = f.name == "run" and f.module.name == "uberjob._run" and name == "Plan.gather"
-            ctx.ob(rid, f"{f.short}/calls-{name}", ok, loc(f, c),
-                   "run() gathers the output specification (attributed to uberjob.run's caller frame chain)" if ok else
-                   f"{name} is called from inside the package: the calls it creates are attributed to {f.short}, not to the user's line",
-                   norm(c)[:80])
-    ctx.floor(rid, "internal call sites of frame-capturing API methods", n, 1)
+            ctx.ob(rid, f"{f.short}/calls-{name}", False, loc(f, c),
+                   f"{name} is called from inside the package: the calls it creates are attributed to {f.short} (a line inside uberjob), "
+                   f"not to the user's line", norm(c)[:80])
+    # run() converts the output specification itself: it must hand the frame of *its caller* to the frame-explicit gather
+    run = [f for f in m.funcs.values() if f.name == "run" and f.module.name == "uberjob._run"]
+    gsf = m.one_func("get_stack_frame", "CAPTURE")
+    for f in run:
+        for c in f.own_calls():
+            if not (isinstance(c.func, ast.Attribute) and c.func.attr in ("_gather", "_call")):
+                continue
+            n += 1
+            a0 = c.args[0] if c.args else None
+            direct = isinstance(a0, ast.Call) and gsf in m.callee_funcs(f, a0) and not a0.args and not a0.keywords
+            dflt = gsf.defaults.get(gsf.pos_params[0]) if gsf.pos_params else None
+            ok = direct and isinstance(dflt, ast.Constant) and dflt.value == 2
+            ctx.ob(rid, f"{f.short}/output-gather-frame", ok, loc(f, c),
+                   "run() attributes the gather of the output specification to its caller (get_stack_frame() evaluated in run's own frame, depth 2)" if ok else
+                   "the gather of the output specification is not attributed to run()'s caller: a failing output gather is reported at a line inside uberjob",
+                   norm(c)[:100])
+    ctx.floor(rid, "internal uses of the frame-capturing API examined", n, 1)
 
 
 # ------------------------------------------------------------------------------------------------ result slots
